@@ -78,6 +78,9 @@ def parse_type(s: str) -> Ty:
         if name == 'none':
             return T_NONE
         if name == 'opaque':
+            if pos[0] < len(s) and s[pos[0]] == ':':
+                pos[0] += 1
+                return Ty('opaque', tag=ident())
             return T_OPAQUE
         if name == 'str':
             return Ty('seq', elem=T_INT, skind='str')
@@ -265,7 +268,7 @@ def fresh(ty: Ty, name: str, dims: int = 0) -> V:
     if k == 'none':
         return VNone()
     if k == 'opaque':
-        return VOpaque(None, 'opaque')
+        return VOpaque(getattr(ty, 'tag', None), 'opaque')
     raise Unsupported(f"fresh of type {ty!r}")
 
 
